@@ -11,5 +11,6 @@ CONFIG = dict(
           "Non-trivial = some event sees a fork of one validator and at the same time a clean (fork-free so far) history of another "
           "forking validator; distinct by DAG hash."),
     assumptions=["validator index i of the merged vector is the i-th validator in canonical order (Validators.Idxs)"],
+    level_more="The index is driven through a drawn session (flush periods, reloads), a third of the index objects served another validator group before, and the adapter's reports for all validators are collected before they are compared.",
     units=[dict(test="TestC06MergedClock", quick=5000, thorough=240000, shards=16)],
 )
